@@ -16,7 +16,7 @@ import (
 	"sync"
 )
 
-const MaxTasks = 16
+const MaxTasks = 64
 
 // ChangePoint lowers the running task's priority below all others when hit.
 type ChangePoint struct {
@@ -34,6 +34,7 @@ type Plan struct {
 	Prio     []int         `json:"prio"`              // initial priority per task (higher runs first)
 	Points   []ChangePoint `json:"points,omitempty"`  // change points
 	Quantum  uint64        `json:"quantum,omitempty"` // >0: additionally a change point every Quantum yields
+	DynPrio  []int         `json:"dyn_prio,omitempty"` // priorities of goroutines the library itself starts, in order of creation
 }
 
 // Switch is one recorded hand-off.
@@ -69,6 +70,9 @@ var (
 	siteHit  []uint32 // per site: number of switches taken there
 	nSpin    uint64
 	limit    uint64 // logical step bound of the run (0 = none)
+	dynPrio  []int  // priorities for library-started goroutines
+	dynNext  int
+	nTop     int // number of top-level (harness) tasks
 	onceTab  [64]onceState // no map: runtime map operations report to the race detector even from norace code
 	onceN    int
 )
@@ -86,6 +90,11 @@ func Setup(n, ns int, p *Plan, count bool, record int) {
 		panic("simsched: too many tasks")
 	}
 	ntasks, nsites = n, ns
+	nTop = n
+	dynPrio, dynNext = nil, 0
+	if p != nil {
+		dynPrio = p.DynPrio
+	}
 	counting = count
 	ord, nSwitch, nSpin, trHash = 0, 0, 0, 1469598103934665603
 	if cap(switches) < record {
@@ -96,17 +105,17 @@ func Setup(n, ns int, p *Plan, count bool, record int) {
 	if len(siteHit) != ns {
 		siteHit = make([]uint32, ns)
 	}
-	if len(counts) != n || (n > 0 && len(counts[0]) != ns) {
-		counts = make([][]uint32, n)
-		trig = make([][]uint32, n)
-		trigMore = make([][][]uint32, n)
+	if len(counts) != MaxTasks || len(counts[0]) != ns {
+		counts = make([][]uint32, MaxTasks)
+		trig = make([][]uint32, MaxTasks)
+		trigMore = make([][][]uint32, MaxTasks)
 		for i := range counts {
 			counts[i] = make([]uint32, ns)
 			trig[i] = make([]uint32, ns)
 			trigMore[i] = make([][]uint32, ns)
 		}
 	}
-	for i := 0; i < n; i++ {
+	for i := 0; i < MaxTasks; i++ {
 		for j := range counts[i] {
 			counts[i][j] = 0
 			trig[i][j] = 0
@@ -416,7 +425,7 @@ func ResetMidCall() { midCall = 0 }
 //
 //go:norace
 func Counts() [][]uint32 {
-	out := make([][]uint32, ntasks)
+	out := make([][]uint32, nTop)
 	for i := range out {
 		out[i] = append([]uint32(nil), counts[i]...)
 	}
@@ -435,4 +444,109 @@ func SiteHits() []uint32 {
 		siteHit[i] = 0
 	}
 	return out
+}
+
+// ---------------------------------------------------------------- goroutines
+// started by the library itself (`go f(x)` is rewritten to simsched.Go1(f, x)).
+// Such a goroutine becomes one more task: it runs only while it holds the turn.
+
+//go:norace
+func newTask() int {
+	id := -1
+	for i := nTop; i < ntasks; i++ { // reuse the slot of a finished library goroutine
+		if done[i] {
+			id = i
+			break
+		}
+	}
+	if id < 0 {
+		if ntasks >= MaxTasks {
+			panic("simsched: too many live goroutines started by the library")
+		}
+		id = ntasks
+		ntasks++
+	}
+	done[id], inY[id] = false, false
+	if dynNext < len(dynPrio) {
+		prio[id] = dynPrio[dynNext]
+	} else {
+		prio[id] = prio[turn] // same priority as the creator: runs when the creator blocks or ends (ties: lower id first)
+	}
+	dynNext++
+	dynStarted++
+	return id
+}
+
+var dynStarted uint64
+
+//go:norace
+func DynStarted() uint64 { return dynStarted }
+
+func spawn(run func()) {
+	if !isActive() {
+		go run()
+		return
+	}
+	id := newTask()
+	go func() {
+		Enter(id)
+		run()
+		Finish(id)
+	}()
+	afterSpawn()
+}
+
+//go:norace
+func afterSpawn() {
+	ord++
+	handOff(turn, 0) // the new task runs first if the plan gave it the higher priority
+}
+
+func Go0(f func())                                  { spawn(f) }
+func Go1[A any](f func(A), a A)                     { spawn(func() { f(a) }) }
+func Go2[A, B any](f func(A, B), a A, b B)          { spawn(func() { f(a, b) }) }
+func Go3[A, B, C any](f func(A, B, C), a A, b B, c C) { spawn(func() { f(a, b, c) }) }
+func Go4[A, B, C, D any](f func(A, B, C, D), a A, b B, c C, d D) {
+	spawn(func() { f(a, b, c, d) })
+}
+func Go5[A, B, C, D, E any](f func(A, B, C, D, E), a A, b B, c C, d D, e E) {
+	spawn(func() { f(a, b, c, d, e) })
+}
+func Go6[A, B, C, D, E, F any](f func(A, B, C, D, E, F), a A, b B, c C, d D, e E, g F) {
+	spawn(func() { f(a, b, c, d, e, g) })
+}
+
+// WaitAll lets every remaining task (library-started goroutines that outlive
+// the call that started them) run to completion.
+//
+//go:norace
+func WaitAll() {
+	for active && pickNext() >= 0 {
+		if turn < 0 {
+			turn = pickNext()
+		}
+		runtime.Gosched()
+	}
+}
+
+// WaitGroup replaces sync.WaitGroup in instrumented library code: Wait yields
+// to other tasks instead of blocking for real; the real WaitGroup is still
+// driven, so the race detector sees the true happens-before edges.
+type WaitGroup struct {
+	real sync.WaitGroup
+	n    int
+}
+
+//go:norace
+func (w *WaitGroup) cnt(d int) int { w.n += d; return w.n }
+
+func (w *WaitGroup) Add(d int) { w.cnt(d); w.real.Add(d) }
+func (w *WaitGroup) Done()     { w.cnt(-1); w.real.Done() }
+func (w *WaitGroup) Wait() {
+	if isActive() {
+		for w.cnt(0) > 0 {
+			spinYield()
+		}
+	}
+	w.real.Wait()
 }
